@@ -44,9 +44,9 @@ TRUSTED = ["is_single_crossing is MIRRORED step by step by sc_algo (Model/SCAlgo
            "proved exact for every size (sc_algo_sound, sc_algo_complete, sc_algo_no_error); the implementation is "
            "compared with it on every generated case: verdict (hard) and returned sequence (counted statistic; a "
            "different but valid witness is not an alarm)",
-           "is_single_crossing_conflict_sets is not mirrored literally (Python sets of (min, max) pairs); "
-           "sc_conflict_decide is its specification-level counterpart, proved equivalent to SC, and is compared on "
-           "every case",
+           "is_single_crossing_conflict_sets is mirrored literally by conflict_sets_algo (sets of (min, max) pairs as "
+           "lists used through membership), proved equal to sc_conflict_decide and hence exact "
+           "(conflict_sets_algo_eq / _correct); the implementation's verdict is compared on every case",
            "OrdinalInstance.flatten_strict (tuple of the single member of each class) is used as is; "
            "kendall_tau_distance = ktd (theorem ktd_kendall_tau, C20 model)"]
 ASSUMPTIONS = ["profiles are duplicate-free lists of strict complete orders over the alternatives of the instance "
@@ -884,6 +884,7 @@ def _plan(c, r):
     plan.append(("algo", "c04.algo", [alts, orders]))
     # mirror of the verification pass vs the sequence checker on the stored order (theorem ordered_check_correct)
     if c["tags"].get("helper"):
+        plan.append(("csalgo", "c04.csalgo", [orders]))      # literal mirror of is_single_crossing_conflict_sets
         plan.append(("ordered", "c04.ordered", [orders]))
         plan.append(("seqcheck", "c04.seqcheck", [alts, orders]))
     return plan
@@ -914,6 +915,9 @@ def judge(c, r, mres):
     if cref != expected:
         return {"kind": "broken-correspondence",
                 "reason": "the two proved references disagree (decide/core says SC=%d, cdecide %d)" % (expected, cref)}
+    if "csalgo" in m and m["csalgo"] != cref:
+        return {"kind": "broken-correspondence",
+                "reason": "model: conflict_sets_algo and sc_conflict_decide disagree (conflict_sets_algo_eq)"}
     if "ordered" in m and m["ordered"] != m["seqcheck"]:
         return {"kind": "broken-correspondence",
                 "reason": "model: ordered_check and sc_seq_check disagree on the stored order (ordered_check_correct)"}
